@@ -24,8 +24,14 @@ MUTANTS = [
     ("C19", "config/config_service.py", "        for path in in_app_exclude:\n            if filename.startswith(path):\n                return False, path\n\n        for path in in_app_include:\n            if filename.startswith(path):\n                return True, path",
      "        for path in in_app_include:\n            if filename.startswith(path):\n                return True, path\n\n        for path in in_app_exclude:\n            if filename.startswith(path):\n                return False, path"),
     ("C02", "processor/frame_collector.py", "return filename[len(match):], is_app_frame", "return filename[len(match) + 1:], is_app_frame"),
+    ("C18", "api/attributes/__init__.py", "self._dict.popitem(last=False)\n                    self.dropped += 1", "self._dict.popitem(last=False)"),
+    ("C18", "api/attributes/__init__.py", "self.max_length is not None and len(self._dict) == self.max_length", "self.max_length is not None and len(self._dict) + 1 == self.max_length"),
+    ("C18", "api/attributes/__init__.py", "                if key in self._dict:\n                    del self._dict[key]\n                elif (", "                if ("),
+    ("C18", "api/attributes/__init__.py", "self._dict.popitem(last=False)", "self._dict.popitem(last=True)"),
 ]
-ALL = ["C02", "C03", "C04", "C05", "C10", "C11", "C19"]
+if len(sys.argv) > 1:
+    MUTANTS = [m for m in MUTANTS if m[0] in sys.argv[1:]]
+ALL = ["C02", "C03", "C04", "C05", "C10", "C11", "C18", "C19"]
 
 
 def verdicts():
